@@ -21,9 +21,8 @@ ASSUMPTIONS = ["a handler reacting to a value that arrived on topic T publishes 
 
 
 def reset_server():
-    from tickit.core.state_interfaces.internal import InternalStateServer
-    InternalStateServer._topics.clear()
-    InternalStateServer._subscribers.clear()
+    from buses import reset_internal_bus
+    reset_internal_bus()
 
 
 async def run_real_async(ops, handlers, n_cons):
